@@ -695,6 +695,56 @@ def t_remap():
     return out
 
 
+def t_block():
+    """structural facts of block.py / combined_block.py / solved_block.py that the abstract models rely on"""
+    facts = {}
+    go = ast.unparse(find_def('blocks/block.py', 'Block.get_options'))
+    facts['options_kwargs_over_block_over_defaults'] = ('merged = {**own_options, **options[self.name], **kwargs}' in go and 'merged = {**own_options, **kwargs}' in go
+                                                        and 'return {k: merged[k] for k in own_options}' in go)
+    guard = '(inputs <= Js[self.name].inputs) and (outputs <= Js[self.name].outputs)'.replace('(', '').replace(')', '')
+    for q in ('Block.partial_jacobians', 'Block.jacobian'):
+        src = ast.unparse(find_def('blocks/block.py', q)).replace('(', '').replace(')', '')
+        facts[q.split('.')[1] + '_saved_guard_covers_request'] = guard in src
+    jac = ast.unparse(find_def('blocks/block.py', 'Block.jacobian'))
+    facts['jacobian_copies_Js_before_writing'] = jac.find('Js = Js.copy()') != -1 and jac.find('Js = Js.copy()') < jac.find('Js[self.name] = self.M.inv @ Js[self.name]')
+    cb = 'blocks/combined_block.py'
+    facts['combined_steady_state_forwards_options'] = 'block.steady_state(ss, dissolve=inner_dissolve, **kwargs)' in ast.unparse(find_def(cb, 'CombinedBlock._steady_state'))
+    facts['combined_impulse_nonlinear_forwards'] = 'block.impulse_nonlinear(ss, input_args, outputs & block.outputs, internals, Js, options, ss_initial)' in ast.unparse(find_def(cb, 'CombinedBlock._impulse_nonlinear'))
+    facts['combined_impulse_linear_forwards'] = 'block.impulse_linear(ss, input_args, outputs & block.outputs, Js, options)' in ast.unparse(find_def(cb, 'CombinedBlock._impulse_linear'))
+    cj = ast.unparse(find_def(cb, 'CombinedBlock._jacobian'))
+    facts['combined_jacobian_accumulates'] = all(x in cj for x in ('total_Js = JacobianDict.identity(inputs)', 'for block in self.blocks', 'J = block.jacobian(ss, inputs & block.inputs, outputs & block.outputs, T, Js, options)',
+                                                                   'total_Js.update(J @ total_Js)', 'return total_Js[original_outputs & total_Js.outputs, :]'))
+    sn = find_def('blocks/block.py', 'Block.solve_impulse_nonlinear')
+    src = ast.unparse(sn)
+    loops = [n for n in sn.body if isinstance(n, ast.For)]
+    ok = len(loops) == 1 and len(loops[0].orelse) == 1 and isinstance(loops[0].orelse[0], ast.Raise)
+    if ok:
+        body = loops[0].body
+        ok = ast.unparse(body[0]).startswith('results = self.impulse_nonlinear(ss, inputs | U, actual_outputs | targets, internals, Js, options, ss_initial')
+        last = body[-1]
+        ok = ok and isinstance(last, ast.If) and ast.unparse(last.test) == "all((v < options['tol'] for v in errors.values()))" and isinstance(last.body[0], ast.Break) \
+            and ast.unparse(last.orelse[0]) == 'U += H_U_factored.apply(results)'
+        ok = ok and "errors = {k: np.max(np.abs(results[k])) for k in targets}" in src and 'return (inputs | U)[inputs_as_outputs] | results' in src
+    facts['newton_loop_shape'] = ok
+    sb = 'blocks/solved_block.py'
+    facts['solved_impulse_nonlinear_passes_initial_ss'] = 'inputs, outputs, internals, Js, options, self._get_H_U_factored(Js), ss_initial, **kwargs)' in ast.unparse(find_def(sb, 'SolvedBlock._impulse_nonlinear'))
+    pj = ast.unparse(find_def(sb, 'SolvedBlock._partial_jacobians'))
+    facts['solved_factorisation_from_current_ss'] = all(x in pj for x in ('H_U = self.block.jacobian(ss, OrderedSet(self.unknowns), OrderedSet(self.targets), T, inner_Js, options)',
+                                                                           'H_U_factored = FactoredJacobianDict(H_U, T)', 'return {**inner_Js, self.name: H_U_factored}'))
+    facts['solved_keeps_target_values'] = 'self.targets = targets' in ast.unparse(find_def(sb, 'SolvedBlock.__init__'))
+    sj = ast.unparse(find_def('blocks/block.py', 'Block.solve_jacobian'))
+    facts['solve_jacobian_shape'] = all(x in sj for x in ('H_Z = self.jacobian(ss, inputs, targets, T, Js, options, **kwargs)', 'U_Z = JacobianDict.unpack(-np.linalg.solve(H_U, H_Z.pack(T)), unknowns, inputs, T)',
+                                                         'U_Z = H_U_factored @ H_Z', 'self_with_unknowns = combine([U_Z, self])'))
+    sl = ast.unparse(find_def('blocks/block.py', 'Block.solve_impulse_linear'))
+    facts['solve_impulse_linear_shape'] = all(x in sl for x in ('dH = self.impulse_linear(ss, inputs, targets, Js, options, **kwargs).get(targets)', 'dU = ImpulseDict.unpack(-np.linalg.solve(H_U, dH.pack()), unknowns, T)',
+                                                               'dU = H_U_factored @ dH'))
+    out = ''
+    for k, v in facts.items():
+        out += f"Definition {k} : bool := {'true' if v else 'false'}.\n"
+    out += 'Definition block_plumbing_facts : list bool := (' + ' :: '.join(facts) + ' :: nil)%list.\n'
+    return out
+
+
 TARGETS = {
     'MultiplyBasis': t_multiply_basis,
     'ComputeL': t_compute_l,
@@ -705,6 +755,7 @@ TARGETS = {
     'Interp': t_interp,
     'Solvers': t_solvers,
     'Remap': t_remap,
+    'BlockFacts': t_block,
 }
 
 
